@@ -22,10 +22,10 @@ PROP = {
     "lean_modules": ["AxVerif.Model.Pool", "AxVerif.Lemmas.Pool", "AxVerif.Model.Fuzz", "AxVerif.Model.Bytes"],
     "rule": "pool: job sequences (blocking calls and FIFO bursts of ok / err / panicking jobs) on pools of 1-8 workers through the "
             "task runner of a real Database; non-trivial = a sequence with an err or panicking job or a burst longer than the pool. "
-            "fuzz: one self-contained sequence of 12-300 statements per case (one of 33 themes) on a fresh pre-populated database (1-3 tables of random "
+            "fuzz: one self-contained sequence of 12-300 statements per case (one of 34 themes) on a fresh pre-populated database (1-3 tables of random "
             "column types, pool size 1-3, autocommit or one session): strings (random characters, lossily decoded random bytes, token "
             "soups of the lexer's vocabulary, truncated and mutated valid statements, DDL, oversized literals, long garbage runs, nesting "
-            "to depth 2000, 40-300 versions of one row, multi-row and self-referencing inserts, statements that fail on a late row) and "
+            "to depth 2000, 40-300 versions of one row, multi-row inserts, INSERT … SELECT with every mix of DISTINCT / WHERE / GROUP BY / self-join / ORDER BY / LIMIT / OFFSET over tables of several B+tree pages (60-160 short or wide rows, reading the target or its twin, autocommit and session), statements that fail on a late row) and "
             "statements of a small grammar (unknown names, wrong types, NULL arguments, /0, overflow, functions, aggregates, CASE, "
             "sub-queries, HAVING, DML); after every statement: no panic in any thread, a "
             "probe SELECT answers on the same session and database, and a dump of all tables is unchanged if the statement failed. "
@@ -44,7 +44,7 @@ PROP = {
         "statement is reported to its caller as an error and the worker survives)",
         "state comparison uses SELECT * of the schema's tables plus three candidate names through the same path (database or session) "
         "as the statement; hidden state (indexes, free pages, WAL) is not compared",
-        "a hang is observed by the supervisor's 120 s per-case time-out; stack overflow and other process deaths as `abort`",
+        "a hang is observed by the supervisor's 45 s per-case time-out (retried once); stack overflow and other process deaths as `abort`",
         "pool model: jobs are opaque (ok / err / panic); shutdown of the pool is not modelled",
     ],
     "partial": "The pool theorems are complete for the model. For the statement pipeline nothing is proved about parser, binder, planner "
